@@ -53,14 +53,21 @@ def _alarm(signum, frame):
 
 
 def timed(fn, *args, seconds=5.0):
-    """Run fn(*args) under a wall-clock alarm; raises Timeout."""
-    old = signal.signal(signal.SIGALRM, _alarm)
-    signal.setitimer(signal.ITIMER_REAL, seconds)
+    """Run fn(*args) under an alarm; raises Timeout.
+
+    The budget is CPU time of this process (ITIMER_PROF), so a heavily loaded machine does not
+    produce false "hangs"; a generous wall-clock alarm (20x + 30 s) backs it up for blocking calls."""
+    old_r = signal.signal(signal.SIGALRM, _alarm)
+    old_p = signal.signal(signal.SIGPROF, _alarm)
+    signal.setitimer(signal.ITIMER_PROF, seconds)
+    signal.setitimer(signal.ITIMER_REAL, seconds * 20 + 30)
     try:
         return fn(*args)
     finally:
+        signal.setitimer(signal.ITIMER_PROF, 0)
         signal.setitimer(signal.ITIMER_REAL, 0)
-        signal.signal(signal.SIGALRM, old)
+        signal.signal(signal.SIGALRM, old_r)
+        signal.signal(signal.SIGPROF, old_p)
 
 
 def _chunk_worker(args):
